@@ -393,6 +393,8 @@ class Parser:
                 elif not self.at_op(')'):
                     self.eat_kw('DISTINCT')
                     args.append(self.expr())
+                    if name.upper() == 'CAST' and self.eat_kw('AS'):
+                        args.append(('str', str(self.next()[1])))      # CAST(expr AS type)
                     while self.eat_op(','):
                         args.append(self.expr())
                 self.expect_op(')')
